@@ -206,6 +206,25 @@ Theorem c01_rate_spec_characterises : forall i ops obs last now,
 Proof. exact rate_spec_characterises. Qed.
 Print Assumptions c01_rate_spec_characterises.
 
+(* The limiter composed with the queue: in the transition system the limiter is consulted exactly at the consume steps
+   whose `next` returned a validation error (`verdicts`), and the log of any run contains exactly as many in-band reports
+   as verdict bits are set; so if those bits are the limiter's verdicts for clock readings whose whole seconds lie in
+   [lo, hi], the stream sees at most (hi - lo) / interval + 1 reports, however many entries fail validation. *)
+From MV Require Import Queue.RateCompose.
+Theorem c01_reports_are_the_verdicts : forall c ls s s', run c s ls = Some s' ->
+  count_reports (out (gh s')) = (count_reports (out (gh s)) + count_true (verdicts c s ls))%nat.
+Proof. exact run_reports. Qed.
+Print Assumptions c01_reports_are_the_verdicts.
+
+Theorem c01_reports_in_stream_bounded : forall c ls s i next ts lo hi,
+  run c init ls = Some s ->
+  verdicts c init ls = fst (rl_run i next ts) ->
+  (1 <= as_secs i)%N -> (hi + as_secs i <= U64MAX)%N ->
+  Forall (fun t => (lo <= as_secs t <= hi)%N) ts ->
+  (N.of_nat (count_reports (out (gh s))) <= (hi - lo) / as_secs i + 1)%N.
+Proof. exact reports_in_stream_bounded. Qed.
+Print Assumptions c01_reports_in_stream_bounded.
+
 Example c01_example_rate_burst :
   rate_obs NS 0 0 [OSet (3600 * NS); OFail; OFail; OOk; OFail; OSet (3600 * NS + 999999999); OFail;
                    OSet (3601 * NS); OFail; OFail]
